@@ -4,10 +4,11 @@
 # repaired since) is tried with its hand-ported variant patch_ported.diff if present.
 cd /verif; out=work/seedmatrix.txt; [ -n "${SEEDDIRS:-}" ] || : > $out
 git -C /repo diff --quiet || { echo "/repo dirty"; exit 2; }
-for d in ${SEEDDIRS:-seeded seeded2 seeded3 seeded4 seeded5 seeded6}; do
+for d in ${SEEDDIRS:-seeded seeded2 seeded3 seeded4 seeded5 seeded6 seeded7}; do
   for i in $(seq -w 1 20); do
     ID=C$i; P=/verif/$d/$ID/patch.diff
     [ -f /verif/$d/$ID/patch_ported.diff ] && ! git -C /repo apply --check $P 2>/dev/null && P=/verif/$d/$ID/patch_ported.diff
+    [ -d /verif/$d/$ID ] || continue
     [ -f $P ] || { echo "$d $ID no-patch" >> $out; continue; }
     if ! git -C /repo apply --check $P 2>/dev/null; then echo "$d $ID patch-no-longer-applies" >> $out; continue; fi
     git -C /repo apply $P
